@@ -419,6 +419,94 @@ def r4(chk, prog):
     return n
 
 
+def _plain_name(q):
+    """last component of a qualified name, template arguments removed"""
+    out, depth = [], 0
+    for ch in q:
+        if ch == '<':
+            depth += 1
+        elif ch == '>':
+            depth -= 1
+        elif depth == 0:
+            out.append(ch)
+    return ''.join(out).split('::')[-1]
+
+
+TRUNCATING = {'to_time_t', 'duration_cast', 'time_point_cast', 'floor', 'time_since_epoch', 'count'}
+ROUNDING = {'round', 'ceil'}
+
+
+def r5_message_getters(chk, prog):
+    """R5: what the renderer reads through the LogMsg getters IS the stored value.
+     * the plain getters return one data member, unchanged; no two getters hand out the same member; where a setter
+       of the same property exists (setLevel/setClass/setText/...), it writes the member the getter returns
+     * the three time getters are functions of the one stored time point and convert it by TRUNCATION only
+       (to_time_t / duration_cast / time_point_cast / floor): the seconds shown by date/time fields and the
+       milli-/microseconds shown next to them belong to the same instant only if none of them rounds up"""
+    cls = 'celma::log::detail::LogMsg'
+    plain = ['getProcessId', 'getThreadId', 'getLineNbr', 'getFunctionName', 'getFileName', 'getLevel', 'getClass',
+             'getErrorNbr', 'getText']
+    setters = {'getLevel': 'setLevel', 'getClass': 'setClass', 'getErrorNbr': 'setErrorNumber', 'getText': 'setText'}
+    field_of = {}
+
+    def this_fields(f):
+        return [x['ref'].get('name') for x in f.walk() if x.get('k') == 'MemberExpr' and
+                x['ref'].get('dk') == 'Field' and children(x) and strip_all_casts(children(x)[0]).get('k') == 'CXXThisExpr']
+    for g in plain:
+        f = prog.one(cls, g)
+        rets = [x for x in f.walk() if x.get('k') == 'ReturnStmt']
+        v = strip_all_casts(children(rets[0])[0]) if len(rets) == 1 and children(rets[0]) else {}
+        while v.get('k') in ('CXXConstructExpr', 'MaterializeTemporaryExpr', 'ParenExpr') and len(children(v)) == 1:
+            v = strip_all_casts(children(v)[0])
+        fl = this_fields(f)
+        ok = v.get('k') == 'MemberExpr' and len(fl) == 1 and v['ref'].get('name') == fl[0] and \
+            not any(x.get('k') in CALL_KINDS and x is not v for x in f.walk() if x.get('k') != 'CXXConstructExpr')
+        chk.check(ok, 'R5', f.name, '%s() returns one stored member, unchanged' % g, f.loc(),
+                  'members read: %s' % fl)
+        if ok:
+            field_of[g] = fl[0]
+    dup = {m for m in field_of.values() if list(field_of.values()).count(m) > 1}
+    chk.check(not dup, 'R5', cls, 'every getter has its own member', '', 'shared: %s' % sorted(dup))
+    for g, sname in setters.items():
+        sf = prog.one(cls, sname)
+        written = set()
+        for x in sf.walk():
+            if (x.get('k') == 'BinaryOperator' and x.get('op') == '=') or \
+                    (x.get('k') == 'CXXOperatorCallExpr' and x.get('op') == '='):
+                lhs = strip_all_casts(children(x)[0] if x.get('k') == 'BinaryOperator' else call_args(x)[0])
+                if lhs.get('k') == 'MemberExpr':
+                    written.add(lhs['ref'].get('name'))
+        if g in field_of:
+            chk.check(written == {field_of[g]}, 'R5', sf.name, '%s() writes the member that %s() returns' % (sname, g),
+                      sf.loc(), 'writes %s, getter returns %s' % (sorted(written), field_of[g]))
+    # the time getters
+    stamp = None
+    for g in ('getTimestamp', 'getTimeMilliSecs', 'getTimeMicroSecs'):
+        f = prog.one(cls, g)
+        fl = set(this_fields(f))
+        chk.check(len(fl) == 1 and (stamp is None or fl == {stamp}), 'R5', f.name,
+                  '%s() is computed from the stored time point only' % g, f.loc(), 'members read: %s' % sorted(fl))
+        if len(fl) == 1 and stamp is None:
+            stamp = next(iter(fl))
+        names = set()
+        for c in f.calls():
+            nm = _plain_name(c.get('callee') or '')
+            if c.get('k') == 'CXXConstructExpr' or nm in ('duration', 'time_point'):
+                continue            # copies of chrono values
+            if c.get('k') == 'CXXOperatorCallExpr':
+                nm = 'operator' + (c.get('op') or '')
+            names.add(nm)
+        arith = {x.get('op') for x in f.walk() if x.get('k') == 'BinaryOperator'} | \
+                {n[8:] for n in names if n.startswith('operator')}
+        bad = sorted(names & ROUNDING) + sorted(o for o in arith if o in ('+', '-', '+=', '-='))
+        unknown = sorted(n for n in names if n not in TRUNCATING and n not in ROUNDING and not n.startswith('operator'))
+        if unknown and not bad:
+            raise AnalysisBroken('%s(): conversion %s of the time point is not in the table of truncating / rounding '
+                                 'conversions' % (g, unknown))
+        chk.check(not bad, 'R5', f.name, '%s() converts the time point by truncation (seconds and sub-second fields '
+                  'describe the same instant)' % g, f.loc(), 'uses %s' % bad)
+
+
 def run(chk):
     units = units_matching('library/log/formatting/', 'library/log/detail/log_attributes_container.cpp',
                            'library/log/detail/log_scoped_attribute.cpp', 'library/log/log_attributes.cpp',
@@ -437,9 +525,11 @@ def run(chk):
     chk.rule('R2', 'builder: pending options apply to exactly one field; separator only between fields', 10)
     chk.rule('R3', 'attribute precedence and scoping', 5)
     chk.rule('R4', 'strftime() result checked', 1)
+    chk.rule('R5', 'message getters hand out the stored value; time getters truncate', 15)
     r1(chk, prog)
     r2(chk, prog)
     r3(chk, prog)
     r3_add_balance(chk, prog)
     r3_global_forwarding(chk, prog)
     r4(chk, prog)
+    r5_message_getters(chk, prog)
